@@ -31,44 +31,43 @@ def okc(c):
 
 
 def sym3(c):
-    # alphabet ( ) a "  encoded 0..3; the if-chain realises the selector, so each operand is a concrete string on its path
-    return "(" if c == 0 else (")" if c == 1 else ("a" if c == 2 else '"'))
+    # alphabet ( ) a " ' \\  encoded 0..5; the if-chain realises the selector, so each operand is a concrete string on its path
+    return "(" if c == 0 else (")" if c == 1 else ("a" if c == 2 else ('"' if c == 3 else ("'" if c == 4 else chr(92)))))
+
+
+def scan_groups(s):
+    """(balanced, closes_early): parentheses outside string literals; a literal is closed by the quote character that opened it,
+    and a quote preceded by a backslash does not close it (MapServer string syntax, as the scanner reads it)"""
+    depth = 0
+    quote = None
+    early = False
+    for i, ch in enumerate(s):
+        if quote is not None:
+            if ch == quote and s[i - 1] != chr(92):
+                quote = None
+        elif ch == '"' or ch == "'":
+            quote = ch
+        elif ch == "(":
+            depth += 1
+        elif ch == ")":
+            depth -= 1
+            if depth < 0:
+                return False, False
+            if depth == 0 and i != len(s) - 1:
+                early = True
+    return (depth == 0 and quote is None), early
 
 
 def balanced(s):
-    """well-formed operand: parentheses outside double-quoted strings balance and never close early"""
-    depth = 0
-    inq = False
-    for ch in s:
-        if ch == '"':
-            inq = not inq
-        elif not inq:
-            if ch == "(":
-                depth += 1
-            elif ch == ")":
-                depth -= 1
-                if depth < 0:
-                    return False
-    return depth == 0 and not inq
+    return scan_groups(s)[0]
 
 
 def one_group(s):
     """s is exactly one parenthesised group: its first '(' is closed by its last ')'"""
     if len(s) < 2 or s[0] != "(" or s[-1] != ")":
         return False
-    depth = 0
-    inq = False
-    for i, ch in enumerate(s):
-        if ch == '"':
-            inq = not inq
-        elif not inq:
-            if ch == "(":
-                depth += 1
-            elif ch == ")":
-                depth -= 1
-                if depth == 0 and i != len(s) - 1:
-                    return False
-    return depth == 0
+    ok, early = scan_groups(s)
+    return ok and not early
 '''
 
 BINARY = '''
@@ -185,7 +184,7 @@ INFO = {
     "files": ["mappyfile/transformer.py", "mappyfile/mapfile.lark", "mappyfile/pprint.py", "mappyfile/quoter.py"],
     "functions": ["mappyfile.transformer.MapfileTransformer.comparison/and_test/or_test/not_expression/expression/add/sub/mul/div/power/neg/func_call/func_params/attr_bind/list/regexp/runtime_var",
                   "mappyfile.transformer.is_parenthesised_group", "mappyfile.pprint.PrettyPrinter.format_value", "mappyfile.parser.Parser.parse"],
-    "bounds": {"operand_len": "2 symbolic code points (32..0x2FFF) for binary builders", "group_operand": "all strings over ( ) a of length <= 8 (quick) / 10 (thorough) and over ( ) a \" of length <= 6 / 8",
+    "bounds": {"operand_len": "2 symbolic code points (32..0x2FFF) for binary builders", "group_operand": "all strings over ( ) a of length <= 8 (quick) / 10 (thorough) and over ( ) a \" ' backslash of length <= 5 / 7",
                "e2e": "11 expressions, 32 holes (attribute names 2 chars, strings 2 code points)"},
     "outside": ["expression trees beyond the skeletons are covered by induction over the per-rule obligations plus C10-PREC, not by end-to-end runs",
                 "back-quoted strings and % runtime variables only as pass-through tokens"],
@@ -207,13 +206,19 @@ def obligations(tier, seed):
         src = BUILD_PRE + harness("h", ab + extra, conj([pre_ab, pre2]), body.format(A=A, B=B))
         obs.append(Ob(name=f"C10-BUILD/{rule}", source=src, pct=300, timeout=400,
                       meta={"desc": f"{rule}: elements verbatim and in order", "functions": [f"MapfileTransformer.{rule}"]}))
-    variants = [(L, 3) for L in (range(2, 9) if tier == "quick" else range(2, 11))] + [(L, 4) for L in (range(2, 7) if tier == "quick" else range(2, 9))]
+    variants = [(L, 3) for L in (range(2, 9) if tier == "quick" else range(2, 11))] + [(L, 6) for L in (range(2, 6) if tier == "quick" else range(2, 8))]
+    # operands that start with "(" and end with ")" are the rule's decisive case: enumerate their inside over the full alphabet
+    variants += [(-L, 6) for L in (range(1, 6) if tier == "quick" else range(1, 7))]
     for L, K in variants:
+        wrapped = L < 0
+        L = abs(L)
         cs = chars("g", L)
         X = " + ".join(f"sym3(g{i})" for i in range(L))
+        if wrapped:
+            X = '"(" + ' + X + ' + ")"'
         pre = conj([f"({n} >= 0) & ({n} < {K})" for n, _ in cs])
         src = BUILD_PRE + harness("h", cs, pre, GROUP.format(X=X))
-        obs.append(Ob(name=f"C10-BUILD/expression.L{L}.K{K}", source=src, pct=900, timeout=1000,
+        obs.append(Ob(name=f"C10-BUILD/expression.{'W' if wrapped else 'L'}{L}.K{K}", source=src, pct=900, timeout=1000,
                       meta={"desc": f"expression rule on every balanced operand of length {L} over ( ) a \": result is one group containing the operand verbatim; groups are not re-wrapped",
                             "bounds": {"L": L, "alphabet": "( ) a \""}, "functions": ["MapfileTransformer.expression", "is_parenthesised_group"]}))
     # end to end
